@@ -24,6 +24,7 @@
      `skip_token_memo_hit`, `skip_token_memo_entry`, `memo_level_dependent` — the memo.
 -/
 import MdIt.Lemmas.InlineFuel
+import MdIt.Lemmas.InlineVals2
 
 namespace MdIt.Inline
 open MdIt.InlineOps (Srcmap getSourcePosFor getMap byteLen slice)
@@ -295,5 +296,266 @@ theorem skip_token_memo_entry (cfg : Cfg) (f : Nat) (st st' : IState)
   · split at h
     · simp at h
     · simp only [Except.ok.injEq] at h; subst h; simp [cacheInsert, List.lookup]
+
+/-! ## 4. the output of `finish` -/
+
+/-- the value is not the parser-internal placeholder `EmphMarker` -/
+def NotMarker : Val → Prop
+  | .emphMarker _ _ _ _ _ => False
+  | _ => True
+
+theorem allValsList_erase_aux (k : Nat) :
+    (∀ n, nsize n ≤ k → C14.AllNF (erase n) → AllValsList NotMarker n.children) := by
+  induction k with
+  | zero => intro n hn; rw [nsize_eq] at hn; omega
+  | succ k ih =>
+    intro n hn h
+    rw [C14.AllNF_eq, erase_children] at h
+    obtain ⟨hnf, hall⟩ := h
+    rw [allValsList_iff]
+    intro c hc
+    rw [AllVals_eq]
+    constructor
+    · have := hnf.noMarker (erase c) (by rw [eraseList_eq_map]; exact List.mem_map_of_mem hc)
+      rw [erase_isMarker] at this
+      cases hv : c.val <;> simp_all [NotMarker]
+    · apply ih
+      · rw [nsize_eq] at hn; have := nsize_le_of_mem hc; omega
+      · -- `AllNFList` of the erased children gives `AllNF` of each
+        have hmem : ∀ (l : List Node), C14.AllNFList (eraseList l) → ∀ x ∈ l, C14.AllNF (erase x) := by
+          intro l
+          induction l with
+          | nil => intro _ x hx; simp at hx
+          | cons y ys ihl =>
+            intro hl x hx
+            simp only [eraseList, C14.AllNFList] at hl
+            rcases List.mem_cons.mp hx with rfl | hx'
+            · exact hl.1
+            · exact ihl hl.2 x hx'
+        exact hmem _ hall c hc
+
+theorem notMarker_good (cfg : Cfg) (h : cfg.hasEmph = false) : GoodP cfg NotMarker := by
+  have hno : ∀ mk csw, RuleId.emph mk csw ∉ cfg.chain := by
+    intro mk csw hmem
+    unfold Cfg.hasEmph at h
+    rw [List.any_eq_false] at h
+    have := h _ hmem
+    simp [RuleId.isEmph] at this
+  exact ⟨fun _ => trivial, fun _ _ _ => trivial, trivial, trivial, fun _ _ => trivial,
+    fun _ _ _ _ => trivial, fun _ _ _ => trivial, fun _ _ _ => trivial,
+    fun mk csw hm => absurd hm (hno mk csw), fun _ _ _ _ => trivial,
+    fun _ _ _ _ _ _ h => h⟩
+
+theorem parseInline_vals (cfg : Cfg) {P : Val → Prop} (g : GoodP cfg P) {content : List Char}
+    {mapping : Srcmap} {cs : List Node} (h : parseInline cfg content mapping = .ok cs) :
+    AllValsList P cs := by
+  unfold parseInline tokenize at h
+  split at h
+  · simp at h
+  · next st hst =>
+    simp only [Except.ok.injEq] at h; subst h
+    exact (vals_induction cfg g _).2 _ _ _ hst (by unfold ValsOK IState.init; trivial)
+
+/-- **No placeholder after `finish`.**  The output of the inline parser + post pass contains no
+    `EmphMarker`, at any depth.  When an emphasis-like rule is configured (so `FragmentsJoin` runs),
+    every sibling list of the output, at every depth, is in the text normal form of C14 — no marker,
+    no empty `Text`, no two adjacent `Text`s (`C14.join_normal_form` through the projection). -/
+theorem no_placeholder_after_finish (cfg : Cfg) {content : List Char} {mapping : Srcmap}
+    {cs : List Node} (h : parseFinish cfg content mapping = .ok cs) :
+    AllValsList NotMarker cs ∧
+    (cfg.hasEmph = true → C14.NormalForm (eraseList cs) ∧ C14.AllNFList (eraseList cs)) := by
+  unfold parseFinish at h
+  split at h
+  · simp at h
+  · next cs0 hp =>
+    simp only [Except.ok.injEq] at h; subst h
+    unfold finish
+    cases he : cfg.hasEmph with
+    | true =>
+      simp only [if_true]
+      have hnf := allNF_joinAllN (rootOf cs0)
+      refine ⟨allValsList_erase_aux _ _ (Nat.le_refl _) hnf, fun _ => ?_⟩
+      rw [C14.AllNF_eq, erase_children] at hnf
+      exact hnf
+    | false =>
+      simp only [Bool.false_eq_true, if_false]
+      exact ⟨parseInline_vals cfg (notMarker_good cfg he) hp, by intro h; cases h⟩
+
+/-- where an emitted url comes from: the empty default, the inline pipeline, the autolink
+    pipeline, or the reference map -/
+def FromPipeline (cfg : Cfg) (u : List Nat) : Prop :=
+  u = [] ∨ (∃ raw, Link.inlineDest (Entity.unescapeAll cfg.entity) raw = some u) ∨
+  (∃ b url, Link.autolinkDest b url = some u) ∨
+  (∃ m k e, cfg.refs = some m ∧ (k, e) ∈ m ∧ e.dest = u)
+
+/-- the url of a link / image / autolink value comes out of a pipeline -/
+def UrlP (cfg : Cfg) : Val → Prop
+  | .link u _ => FromPipeline cfg u
+  | .image u _ => FromPipeline cfg u
+  | .autolink u => FromPipeline cfg u
+  | _ => True
+
+theorem hrefOK_fromPipeline {cfg : Cfg} {href : Option (List Nat)} (h : HrefOK cfg href) :
+    FromPipeline cfg (href.getD []) := by
+  rcases h with rfl | ⟨raw, hraw⟩ | ⟨m, k, e, hm, hmem, rfl⟩
+  · left; rfl
+  · cases href with
+    | none => left; rfl
+    | some u => right; left; exact ⟨raw, hraw⟩
+  · right; right; right; exact ⟨m, k, e, hm, hmem, rfl⟩
+
+theorem urlP_good (cfg : Cfg) : GoodP cfg (UrlP cfg) :=
+  ⟨fun _ => trivial, fun _ _ _ => trivial, trivial, trivial, fun _ _ => trivial,
+   fun b url u h => Or.inr (Or.inr (Or.inl ⟨b, url, h⟩)),
+   fun _ _ h => hrefOK_fromPipeline h, fun _ _ h => hrefOK_fromPipeline h,
+   fun _ _ _ _ _ _ _ => trivial, fun _ _ _ _ => trivial, fun _ _ _ _ _ _ _ => trivial⟩
+
+/-- **Every emitted destination went through a pipeline.**  In the output of the inline parser +
+    post pass, every `Link` / `Image` / `Autolink` url, at any depth, is the empty default, an
+    ACCEPTED result of `Link.inlineDest` (decode → `normalize_link` → `validate_link`), an accepted
+    result of `Link.autolinkDest`, or a destination stored in the reference map. -/
+theorem link_url_from_pipeline (cfg : Cfg) {content : List Char} {mapping : Srcmap}
+    {cs : List Node} (h : parseFinish cfg content mapping = .ok cs) : AllValsList (UrlP cfg) cs := by
+  unfold parseFinish at h
+  split at h
+  · simp at h
+  · next cs0 hp =>
+    simp only [Except.ok.injEq] at h; subst h
+    have h0 := parseInline_vals cfg (urlP_good cfg) hp
+    unfold finish
+    split
+    · have : AllVals (UrlP cfg) (rootOf cs0) := by rw [AllVals_eq]; exact ⟨trivial, h0⟩
+      have := joinAllN_vals (fun _ => trivial) this
+      rw [AllVals_eq] at this; exact this.2
+    · exact h0
+
+/-- what the pipelines guarantee (`C04`): the url is `normalize_link` of something and passed
+    `validate_link`; hence no browser treats it as `javascript:` / `vbscript:` / `file:` / a
+    non-image `data:` url -/
+theorem fromPipeline_safe {cfg : Cfg} {u : List Nat} (h : FromPipeline cfg u)
+    (hrefs : ∀ m k e, cfg.refs = some m → (k, e) ∈ m →
+      (∃ s, e.dest = Link.normalizeLink s) ∧ Link.validateLink e.dest = true ∧
+        Link.dangerous e.dest = false) :
+    (∃ s, u = Link.normalizeLink s) ∧ Link.validateLink u = true ∧ Link.dangerous u = false := by
+  rcases h with rfl | ⟨raw, hraw⟩ | ⟨b, url, hurl⟩ | ⟨m, k, e, hm, hmem, rfl⟩
+  · exact ⟨⟨[], by decide +kernel⟩, by decide +kernel, by decide +kernel⟩
+  · refine ⟨?_, ?_, Link.pipeline_safe _ _ _ hraw⟩
+    · unfold Link.inlineDest at hraw
+      simp only at hraw
+      split at hraw
+      · simp only [Option.some.injEq] at hraw; exact ⟨_, hraw.symm⟩
+      · simp at hraw
+    · unfold Link.inlineDest at hraw
+      simp only at hraw
+      split at hraw
+      · next hv => simp only [Option.some.injEq] at hraw; rw [← hraw]; exact hv
+      · simp at hraw
+  · refine ⟨?_, ?_, Link.pipeline_safe_autolink _ _ _ hurl⟩
+    · unfold Link.autolinkDest at hurl
+      cases b <;> simp only [Bool.false_eq_true, if_false, if_true] at hurl <;> split at hurl
+      · simp only [Option.some.injEq] at hurl; exact ⟨_, hurl.symm⟩
+      · simp at hurl
+      · simp only [Option.some.injEq] at hurl; exact ⟨_, hurl.symm⟩
+      · simp at hurl
+    · unfold Link.autolinkDest at hurl
+      cases b <;> simp only [Bool.false_eq_true, if_false, if_true] at hurl <;> split at hurl
+      · next hv => simp only [Option.some.injEq] at hurl; rw [← hurl]; exact hv
+      · simp at hurl
+      · next hv => simp only [Option.some.injEq] at hurl; rw [← hurl]; exact hv
+      · simp at hurl
+  · exact hrefs m k e hm hmem
+
+/-! ## non-vacuity examples -/
+
+/-- a small configuration for examples: every rule, `*` emphasis, no tables -/
+def exCfg (maxNesting : Nat) : Cfg :=
+  { maxNesting := maxNesting,
+    chain := [.text, .newline, .escape, .backticks, .emph '*' true, .link, .linkEnd, .image,
+              .autolink, .entity],
+    fns := fun m i => if m = '*' then (if i = 0 then some .em else if i = 1 then some .strong else none) else none,
+    refs := none, normRef := id,
+    entity := fun s => if s = "&amp;".toList then some ['&'] else none,
+    isWhite := fun c => c == ' ' || c == '\n', isPunctChar := fun _ => false }
+
+def exSrc : List Char := "a&amp;\n`c` <xx:y> \\* *e*".toList
+
+/-- `exSrc` with the cursor at byte `pos` (all characters are single bytes) -/
+def exSt (pos : Nat) : IState := { IState.init exSrc [(0, 0)] with pos := pos }
+
+theorem exInv : InlineInv (exSt 1) := by
+  refine ⟨by decide +kernel, ⟨exSrc.take 1, exSrc.drop 1, by decide +kernel, by decide +kernel⟩,
+    ⟨exSrc, [], by decide +kernel, by decide +kernel⟩, ⟨⟨0, [], rfl⟩, by decide +kernel⟩⟩
+
+def verdict (r : SRes) : Except RPanic (Option Nat) :=
+  match r with
+  | .ok (o, _) => .ok o
+  | .error e => .error e
+
+-- every `inline_rule_progress_<rule>` / `silent_real_<rule>` has instances with a `some` verdict:
+example : verdict (ruleText (exSt 0) true) = .ok (some 1) ∧ verdict (ruleText (exSt 0) false) = .ok (some 1) := by
+  decide +kernel
+example : verdict (ruleEntity (exCfg 100) (exSt 1) true) = .ok (some 5) ∧
+    verdict (ruleEntity (exCfg 100) (exSt 1) false) = .ok (some 5) := by decide +kernel
+example : verdict (ruleNewline (exSt 6) true) = .ok (some 1) ∧ verdict (ruleNewline (exSt 6) false) = .ok (some 1) := by
+  decide +kernel
+example : verdict (ruleBackticks (exSt 7) true) = .ok (some 3) ∧
+    verdict (ruleBackticks (exSt 7) false) = .ok (some 3) := by decide +kernel
+example : verdict (ruleAutolink (exSt 11) true) = .ok (some 6) ∧
+    verdict (ruleAutolink (exSt 11) false) = .ok (some 6) := by decide +kernel
+example : verdict (ruleEscape (exSt 18) true) = .ok (some 2) ∧ verdict (ruleEscape (exSt 18) false) = .ok (some 2) := by
+  decide +kernel
+example : verdict (ruleEmph (exCfg 100) '*' true (exSt 21) true) = .ok none ∧
+    verdict (ruleEmph (exCfg 100) '*' true (exSt 21) false) = .ok (some 1) := by decide +kernel
+-- `EntStop` holds for the example (`posMax` is the end of the text) …
+example : EntStop (exSt 1).src (exSt 1).posMax := by
+  intro pre c post hs hl
+  have h1 : byteLen (exSt 1).src = 24 := by decide +kernel
+  have h2 : (exSt 1).posMax = 24 := by decide +kernel
+  have := congrArg byteLen hs
+  rw [C05.byteLen_append, hl, h1, h2] at this
+  have := Char.utf8Size_pos c
+  simp only [byteLen] at *; omega
+-- … and is needed: with `posMax` inside the reference the rule answers an extent beyond it
+example : verdict (ruleEntity (exCfg 100) { exSt 1 with posMax := 3 } true) = .ok (some 5) := by
+  decide +kernel
+-- `TrailOK` is needed by the newline rule in real mode: a trailing text whose range end is
+-- smaller than the number of blanks to cut makes `map_end - count` underflow
+example : verdict (ruleNewline { exSt 6 with children := [Node.newText "x   ".toList (some (0, 2))] } false)
+    = .error .underflow := by decide +kernel
+
+/-- the projection of a result to its node values (for examples) -/
+def vals (r : Except Panic (List Node)) : Except Panic (List Val) :=
+  match r with
+  | .ok cs => .ok (cs.map (·.val))
+  | .error e => .error e
+
+-- `parseInline` on a text with several constructs (so `no_placeholder_after_finish`,
+-- `link_url_from_pipeline`, `fuel_suffices` are about non-trivial runs):
+example : vals (parseInline (exCfg 100) "*a* [b](/u) <xx:y>".toList [(0, 0)]) =
+    .ok [.wrap .em '*', .text [' '], .link [47, 117] none, .text [' '], .autolink [120, 120, 58, 121]] := by
+  decide +kernel
+
+/-- **The memo of `skip_token` is keyed by position only, but what it stores depends on `level`.**
+    `[[a](b)](c)` with `max_nesting = 1`: the look-ahead for the outer label reaches `[` at 1 at
+    level 1, whose own label scan calls `skip_token` at position 2 OVER the limit: that call jumps to
+    `pos_max` and memoises `2 ↦ 11`.  When the tokenizer later stands at 1 (level 0) and asks
+    again, the entry answers `11` where an un-memoised run at level 0 answers `3` — so the link
+    `[a](b)`, which IS recognised on its own with the same limit, is not recognised here. -/
+theorem memo_level_dependent :
+    -- the entry is made at level 1 (over the limit) …
+    (skipToken (exCfg 1) 40 { IState.init "[[a](b)](c)".toList [(0, 0)] with pos := 2, level := 1 }).map
+        (fun s => (s.pos, s.cache)) = .ok (11, [(2, 11)]) ∧
+    -- … answers at level 0 …
+    (skipToken (exCfg 1) 40 { IState.init "[[a](b)](c)".toList [(0, 0)] with pos := 2, cache := [(2, 11)] }).map
+        (fun s => s.pos) = .ok 11 ∧
+    -- … where the un-memoised look-ahead says 3
+    (skipToken (exCfg 1) 40 { IState.init "[[a](b)](c)".toList [(0, 0)] with pos := 2 }).map
+        (fun s => s.pos) = .ok 3 ∧
+    -- end to end: the whole input stays text, the inner link alone is a link
+    vals (parseInline (exCfg 1) "[[a](b)](c)".toList [(0, 0)]) = .ok [.text "[[a](b)](c)".toList] ∧
+    vals (parseInline (exCfg 1) "[a](b)".toList [(0, 0)]) = .ok [.link [98] none] ∧
+    vals (parseInline (exCfg 2) "[[a](b)](c)".toList [(0, 0)]) =
+      .ok [.text ['['], .link [98] none, .text "](c)".toList] := by
+  decide +kernel
 
 end MdIt.Inline
